@@ -195,3 +195,90 @@ def check_qualify(ck, drv, mismatches, n_cases):
         if o.get("noSep") != [no_sep(x) for x in (o.get("introduced") or [])]:
             mismatches.append(("qualify", f"noSepB of {o.get('introduced')} = {o.get('noSep')}"))
     return {"cases": len(reqs), "not_observable": unobs, "mismatches": bad, "distribution": dict(sorted(dist.items()))}
+
+
+# ---------------------------------------------------------------------------------------------------------------
+# `_initializers_to_constants` (helper of adapt_inline): real function on generated GraphProtos vs `Opset.Inits.toConstants`
+
+def gen_inits_case(rng):
+    names = ["x", "y", "pads", "k", "w", "é", "", "x__y", "axes"]
+    inputs = rng.sample(names[:6], rng.randint(0, 3))
+    mode = rng.random()
+    if mode < 0.2:
+        inits = []
+    elif mode < 0.4:
+        inits = rng.sample(inputs, rng.randint(0, len(inputs)))  # only defaults of inputs
+    else:
+        inits = [rng.choice(names) for _ in range(rng.randint(1, 4))]  # may repeat, may shadow inputs, may be ""
+    return {"inputs": inputs, "inits": inits, "n": rng.randint(0, 3)}
+
+
+def run_real_inits(case):
+    import numpy as np
+    import onnx
+    from onnx import TensorProto as TP
+    from onnx import helper as h
+    from spox import _adapt
+
+    g = h.make_graph(
+        [h.make_node("Identity", ["x"], [f"o{k}"], name=f"orig{k}") for k in range(case["n"])], "g",
+        [h.make_tensor_value_info(n, TP.FLOAT, [1]) for n in case["inputs"]], [],
+        [h.make_tensor(n, TP.FLOAT, [1], [float(i)]) for i, n in enumerate(case["inits"])])
+    ret = _adapt._initializers_to_constants(g)
+    if ret is not None:
+        raise RuntimeError("_initializers_to_constants returned something")
+    nodes, notes = [], []
+    values = {}
+    for i, n in enumerate(case["inits"]):
+        values.setdefault(n, []).append(float(i))
+    for nd in g.node:
+        if nd.op_type == "Constant":
+            nodes.append(["c", nd.output[0]])
+            t = [a.t for a in nd.attribute if a.name == "value"]
+            got = list(onnx.numpy_helper.to_array(t[0]).ravel()) if t else None
+            if got is None or not any(np.allclose(got, [v]) for v in values.get(nd.output[0], [])) or list(nd.input):
+                notes.append(f"Constant {nd.output[0]!r} does not carry the initializer's value: {got}")
+        else:
+            nodes.append(["o", int(nd.name[4:])])
+    return {"inputs": [i.name for i in g.input], "inits": [i.name for i in g.initializer], "nodes": nodes}, notes
+
+
+def check_inits(ck, drv, mismatches, n_cases):
+    import random
+
+    rng = random.Random(ck.rng.getrandbits(32))
+    dist = {"cases": 0, "nothing-to-move": 0, "only-input-defaults": 0, "moved": 0, "default-dropped": 0, "repeated-name": 0,
+            "empty-name": 0, "no-original-nodes": 0}
+    reqs, reals = [], []
+    unobs = 0
+    for _ in range(n_cases):
+        case = gen_inits_case(rng)
+        try:
+            real, notes = run_real_inits(case)
+        except Exception as e:  # noqa: BLE001
+            unobs += 1
+            if unobs <= 2:
+                ck.broken("correspondence", "C09 inits not observable", f"{type(e).__name__}: {str(e)[:200]} :: case={case}")
+            continue
+        for n in notes[:1]:
+            mismatches.append(("inits", f"{n} :: case={case}"))
+        movable = [n for n in case["inits"] if n not in case["inputs"]]
+        dist["cases"] += 1
+        dist["nothing-to-move"] += int(not movable)
+        dist["only-input-defaults"] += int(not movable and bool(case["inits"]))
+        dist["moved"] += int(bool(movable))
+        dist["default-dropped"] += int(bool(movable) and any(n in case["inputs"] for n in case["inits"]))
+        dist["repeated-name"] += int(len(set(case["inits"])) != len(case["inits"]))
+        dist["empty-name"] += int("" in case["inits"])
+        dist["no-original-nodes"] += int(case["n"] == 0)
+        reqs.append(dict(case, t="inits"))
+        reals.append(real)
+    outs = drv.ask_many("C09", reqs) if reqs else []
+    bad = 0
+    for req, real, o in zip(reqs, reals, outs):
+        if {k: o.get(k) for k in ("inputs", "inits", "nodes")} != real:
+            bad += 1
+            if bad <= 3:
+                mismatches.append(("inits", f"_initializers_to_constants gives {real}, model {o} :: request={req}"))
+    dist.update(not_observable=unobs, mismatches=bad)
+    return dist
